@@ -299,6 +299,49 @@ def passHypB : SWorld → List (Nat × List Nat) → Bool
            p.2.isPerm (sortKeys (nodesOf t))) && passHypB r.world rest
     else true
 
+/-! ### the pass after the proposed fix D392 (`proposed_fixes/D392.diff`)
+
+```
+        except ValueError:
+            for original_nodes, graph_like in zip(original_orders, graph_likes):
+                if any(a is not b for a, b in zip(original_nodes, graph_like)):
+                    graph_like.extend(original_nodes)
+            raise
+```
+Only graph-likes whose order changed are re-extended; the test reads the graph-like as it is when the loop gets to it.
+The harness probes the real pass and has the driver run the matching transcription (`passF` / `passFD`). -/
+
+/-- `any(a is not b for a, b in zip(original_nodes, graph_like))` -/
+def changedB (a b : List Nat) : Bool := (a.zip b).any (fun p => p.1 != p.2)
+
+/-- one turn of the restore loop of D392 on containers: `(world, writes so far)` -/
+def restoreStepWD (w0 : SWorld) (s : SWorld × List (Nat × List Nat)) (k : Nat) : SWorld × List (Nat × List Nat) :=
+  if changedB (w0.order k) (s.1.order k) then (applyWrite s.1 (k, w0.order k), s.2 ++ [(k, w0.order k)]) else s
+
+/-- `passW` after D392.diff -/
+def passWD (w : SWorld) (roots : List (Nat × List Nat)) (gls : List Nat) : SRes :=
+  let r := passSortsW w roots
+  if r.out = .valueError then
+    let s := gls.foldl (restoreStepWD w) (r.world, [])
+    ⟨.valueError, s.1, r.trace ++ s.2⟩
+  else r
+
+/-- one turn of the restore loop of D392 on the full world (`Graph.extend` with checks and naming) -/
+def restoreStepFD (w0 : SWorld) (s : WSt) (k : Nat) : WSt :=
+  if s.late then s
+  else if changedB (w0.order k) (s.world.sw.order k) then writeStep s (k, w0.order k) else s
+
+/-- `passF` after D392.diff -/
+def passFD (w : FWorld) (roots : List (Nat × List Nat)) : FRes :=
+  match graphLikes w.sw (roots.map Prod.fst) with
+  | none => ⟨.recursionError, w, []⟩
+  | some gls =>
+    let r := passSortsF w roots
+    if r.out = .valueError then
+      let s := gls.foldl (restoreStepFD w.sw) ⟨r.world, false, []⟩
+      ⟨if s.late then .refused else .valueError, s.world, r.trace ++ s.trace⟩
+    else r
+
 /-- executable hypothesis of `C12_passF_refines_passW`: at every sort the pass performs, `node.graph` names the graph
     whose container lists the node (`Consistent`) -/
 def passConsB : FWorld → List (Nat × List Nat) → Bool
